@@ -539,6 +539,16 @@ impl RawRecords {
             None
         };
         self.current_offset += header.data_size();
+        if self.current_offset > self.file.size() {
+            // Record is cut inside its meta or data: the same kind of damage as a cut inside the header
+            return Err(Error::bincode(format!(
+                "record at {} ends at {}, but blob size is {}",
+                header.blob_offset(),
+                self.current_offset,
+                self.file.size()
+            ))
+            .into());
+        }
         Ok((header, data))
     }
 }
